@@ -86,6 +86,24 @@ theorem research_set_path_not_retrievable :
    by simp [exS, getPath, getChild, lookupItems, effKey, Kind.isSet]⟩
 
 
+/-- "same keys, same order": under a filtering visit callback (one that returns `True` / `False`)
+    the rebuilt dict's keys are a subsequence of the original keys, in the original order -/
+theorem filter_keeps_dict_keys_in_order (vf : VisitFn Val) (hf : FilterVisit vf) (its : Items)
+    (hn : (keysOf .dict 0 its).Nodup) :
+    ∃ its', remapIter ⟨vf, defaultExit⟩ (.node .dict its) = some (.node .dict its') ∧
+      (its'.toList.map Prod.fst).Sublist (keysOf .dict 0 its) := by
+  have hs := rebuildItems_keys_sublist ⟨vf, defaultExit⟩ hf [] .dict its 0
+  refine ⟨ofList (rebuildItems ⟨vf, defaultExit⟩ [] .dict 0 its), ?_, ?_⟩
+  · simp only [remapIter, remapFinal_eq, remapRec, defaultExit, buildItems]
+    rw [dictUpdate_nodup [] _ (by simpa using hs.nodup hn)]
+    simp
+  · rw [toList_ofList]; exact hs
+
+example : FilterVisit (progVisit [⟨false, .isNone, .drop⟩]) := by
+  intro p k v
+  simp only [progVisit, evalProg]
+  split <;> simp [evalAct, VAct.toVisit]
+
 /-! ## heap level -/
 
 /-- `remap` terminates on every heap — shared sub-objects and reference cycles included — within
@@ -210,5 +228,25 @@ example : HeapWF exTupleCycle ∧ HeapWF exShared ∧ LocalVisit copyH := by
   · simp [HeapWF, exShared, objClosed]
     rintro a b (⟨_, rfl⟩ | ⟨_, rfl⟩) <;> simp
   · intro out p k v k' v' hv; simp [copyH, hkeepVisit] at hv
+
+/- Heap-level path clause (sharing and cycles included).  Full statement: every `(path, value)`
+   reported for a nested item satisfies `hgetPath h root path = some value`; false because of
+   sets (see `research_set_path_not_retrievable`).  Proved: every `enter` call that `remap` /
+   `research` makes for a nested item — a shared object is reported once, under the path of its
+   first encounter — is retrievable unless the path leads into a set / frozenset, for every heap
+   whose dicts have distinct keys and whatever the visit callback does. -/
+theorem heap_paths_correct_partial (c : HCfg) (h : Heap) (root : Obj) (hd : DictKeysNodup h)
+    (e : Path × Key × Obj) (he : e ∈ nestedEnters (hfinal c h root))
+    (hs : hsetOnPath h root (e.1 ++ [e.2.1]) = false) :
+    hgetPath h root (e.1 ++ [e.2.1]) = some e.2.2 := by
+  rw [hgetPath_eq_of_noSet h root _ hs]
+  exact LogOK_final c h root hd e he
+
+/-- non-vacuity: in `root = [x, x]`, `x = [7]` the item 7 is reported once, under path (0, 0) -/
+example : DictKeysNodup exShared ∧
+    ([.int 0], .int 0, Obj.atom (.int 7)) ∈ nestedEnters (hfinal copyH exShared (.ref 0)) ∧
+    hsetOnPath exShared (.ref 0) [.int 0, .int 0] = false ∧
+    (nestedEnters (hfinal copyH exShared (.ref 0))).length = 2 := by
+  refine ⟨by simp [DictKeysNodup, exShared], by decide +kernel, by decide +kernel, by decide +kernel⟩
 
 end C08
